@@ -10,11 +10,11 @@ ids=[]
 for f in glob.glob('/verif/checks.d/*.json'): ids+=list(json.load(open(f)).keys())
 print(' '.join(sorted(ids)))"); do
   s=$(date +%s)
-  ./check $id --tier $tier > /tmp/run_all.$id.log 2>&1
+  nice -n 5 ./check $id --tier $tier ${WORKERS:+--workers $WORKERS} > /tmp/run_all.$tier.$id.log 2>&1
   rc=$?
   e=$(date +%s)
-  kf=$(grep -c '^KNOWN-FINDING' /tmp/run_all.$id.log)
-  vio=$(grep -c '^VIOLATION' /tmp/run_all.$id.log)
-  echo "$id rc=$rc secs=$((e-s)) known=$kf violations=$vio $(grep -o 'MACHINERY-ERROR.*' /tmp/run_all.$id.log | head -1 | cut -c1-150)" >> $out
+  kf=$(grep -c '^KNOWN-FINDING' /tmp/run_all.$tier.$id.log)
+  vio=$(grep -c '^VIOLATION' /tmp/run_all.$tier.$id.log)
+  echo "$id rc=$rc secs=$((e-s)) known=$kf violations=$vio $(grep -o 'MACHINERY-ERROR.*' /tmp/run_all.$tier.$id.log | head -1 | cut -c1-150)" >> $out
 done
 echo DONE >> $out
